@@ -19,7 +19,7 @@ RULE = "instances = arrival-stream writes, sampling call sites and service-start
 
 def check(ctx):
     P = ctx.program
-    iters = (0, 1, 2) if ctx.tier == "thorough" else (0, 1)
+    iters = (0, 1)
     arrivals(ctx, P, iters)
     batch_guard(ctx, P)
     validated_api(ctx, P)
@@ -89,6 +89,10 @@ def arrivals(ctx, P, iters):
                 it = unparse(lp.node.iter).replace(" ", "")
                 if it not in tuple("range(%s)" % b for b in bvar) + ("range(self.batch_size(self.next_node,self.next_class))",):
                     viol("batch-loop-bound", it, "the creation loop must run exactly the sampled batch size times", loc(lp.node), st)
+            for lp in loops[:1]:
+                esc = [x for x in ast.walk(lp.node) if isinstance(x, (ast.Break, ast.Return, ast.Continue, ast.Raise))]
+                if esc:
+                    viol("batch-loop-early-exit", unparse(esc[0]), "every member of the sampled batch must be created (and recorded): the creation loop must not be left early", loc(esc[0]), st)
             # one construction + one hand-over per iteration
             cnt = None
             for e in evs:
@@ -200,6 +204,13 @@ def validated_api(ctx, P):
                               "_sample must return the sample exactly when it is a float/int and >= 0", loc(fn), witness(st))
         elif st.status == "raise":
             okx = True
+    # NaN: only a positive `s >= 0` rejects it (`not s < 0` accepts NaN), so the acceptance test must be spelled positively
+    cmps = [x for x in ast.walk(fn) if isinstance(x, ast.Compare) and len(x.ops) == 1 and isinstance(x.ops[0], (ast.Lt, ast.LtE, ast.Gt, ast.GtE))]
+    pos = [x for x in cmps if (isinstance(x.ops[0], ast.GtE) and unparse(x.comparators[0]) in ("0", "0.0")) or (isinstance(x.ops[0], ast.LtE) and unparse(x.left) in ("0", "0.0"))]
+    negated = [x for x in pos if isinstance(getattr(x, "_parent", None), ast.UnaryOp)]
+    if len(pos) != 1 or negated or len(cmps) != 1:
+        ctx.violation(ob, "R7.validated-sampling", "Distribution._sample", "; ".join(unparse(x) for x in cmps), "nan-unsafe-validity-test",
+                      "the validity test must be the positive comparison `s >= 0`: a negated `s < 0` lets NaN through (NaN dates silently end a stream or block a server for ever)", loc(fn))
     ob.ok("Distribution._sample")
     if not okx:
         ctx.violation(ob, "R7.validated-sampling", "Distribution._sample", "raise", "no-raise", "an invalid sample must raise", loc(fn))
